@@ -13,19 +13,21 @@ import (
 	"regexp"
 	"sort"
 	"strings"
+	"sync"
 	"time"
 )
 
 // A Unit is one package under one build configuration with a set of contract groups.
 type Unit struct {
-	Pkg           string   // ./ecc/bn254/fr
-	Tags          string   // "purego" | ""
-	Groups        []string // contract file groups: zz_verif_contracts_<group>.go
-	Funcs         []string // optional filter (contract names); empty = all
-	Verify        []string // groups whose contracts are verified (default: all of Groups); the others are only used at call sites
-	MultiPartOnly bool     // keep only functions with more than one alias partition (C19)
-	Tier          string   // "" = both tiers, "thorough" = thorough only
-	Deps          []string // "rel/pkg/path:group": contract groups of imported packages, applied at call sites only
+	Pkg            string   // ./ecc/bn254/fr
+	Tags           string   // "purego" | ""
+	Groups         []string // contract file groups: zz_verif_contracts_<group>.go
+	Funcs          []string // optional filter (contract names); empty = all
+	Verify         []string // groups whose contracts are verified (default: all of Groups); the others are only used at call sites
+	MultiPartOnly  bool     // keep only functions with more than one alias partition (C19)
+	AssumedAsmOnly bool     // keep only the assumed contracts of assembly routines (C09)
+	Tier           string   // "" = both tiers, "thorough" = thorough only
+	Deps           []string // "rel/pkg/path:group": contract groups of imported packages, applied at call sites only
 }
 
 type Plan struct {
@@ -39,6 +41,9 @@ type Plan struct {
 	// Keep: when set, only the obligations it accepts belong to this property (C18: the frame and ownership
 	// obligations of functions whose other obligations belong to other properties)
 	Keep func(o *Obligation) bool
+	// AsmStandins: the property is decided by running every assembly routine against its assumed contract (bounded),
+	// in both tiers and in every configuration the package can switch at run time
+	AsmStandins bool
 }
 
 type BoundedResult struct {
@@ -250,6 +255,9 @@ func cmdProp(args []string) {
 					continue
 				}
 				if strings.HasPrefix(groupOf[c], "dep:") {
+					continue
+				}
+				if u.AssumedAsmOnly && !strings.Contains(c.Assumed, "assembly") {
 					continue
 				}
 				if u.MultiPartOnly {
@@ -517,6 +525,179 @@ func cmdProp(args []string) {
 		bounded = plan.Bounded(*tier, seed)
 	}
 	bounded = append(bounded, asmBounded...)
+	// ---- C09: every assembly routine against its assumed contract, in every run-time configuration (bounded) ----
+	asmEvals, asmDistinct, asmRuns := 0, 0, 0
+	var asmSamples []interface{}
+	if plan.AsmStandins {
+		type job struct {
+			r     *FuncResult
+			m     resultMeta
+			fn    *ssa.Function
+			part  partition
+			setup string
+		}
+		var jobs []job
+		for _, r := range results {
+			if r.Status != "assumed" || !strings.Contains(r.Reason, "assembly") {
+				continue
+			}
+			m, okm := resMeta[r]
+			if !okm {
+				continue
+			}
+			fn := m.v.findFunc(m.pkg, m.c.Func)
+			if fn == nil {
+				continue
+			}
+			setups := []string{""}
+			if m.pkg.Pkg.Scope().Lookup("supportAdx") != nil {
+				setups = append(setups, "supportAdx = false")
+			}
+			m.v.resetRun()
+			m.v.setupLayer(m.pkg, m.c)
+			for _, part := range m.v.partitions(fn, m.c) {
+				for _, su := range setups {
+					jobs = append(jobs, job{r, m, fn, part, su})
+				}
+			}
+		}
+		type out struct {
+			j  job
+			rr *replayResult
+		}
+		res := make([]out, len(jobs))
+		// phase 1 (sequential: the term factory is shared): build the inputs and the test source of every job
+		prepared := make([]*preparedReplay, len(jobs))
+		for i, j := range jobs {
+			j.m.v.resetRun()
+			j.m.v.setupLayer(j.m.pkg, j.m.c)
+			ctx := &ReplayCtx{V: j.m.v, Pkg: j.m.pkg, Fn: j.fn, C: j.m.c, Part: j.part, Tags: j.r.Tags, Repo: *repo, Setup: j.setup}
+			if (j.m.c.Layer != "" && j.m.v.ringLayerField(j.m.pkg, j.m.c) == nil) || newReplayPlan(ctx) == nil {
+				continue
+			}
+			probe := &Obligation{Name: j.r.Func + "#bounded-assembly-check@" + j.part.label, Kind: "bounded", Ctx: ctx, Spec: "the assembly routine satisfies its assumed contract on the tried inputs"}
+			if j.m.c.Layer != "" {
+				// ring-layer contracts (the E2 routines) have their own replay path: run one by one
+				sc, _ := os.MkdirTemp("", "gcv-asm-")
+				res[i] = out{j, replayModel(*repo, probe, sc, id)}
+				os.RemoveAll(sc)
+				continue
+			}
+			replayBatch = func(p *preparedReplay) { prepared[i] = p }
+			replayModel(*repo, probe, "", id)
+			replayBatch = nil
+		}
+		if os.Getenv("GCV_TIMING") != "" {
+			fmt.Fprintf(os.Stderr, "asm stand-ins: phase 1 took %.1fs\n", time.Since(t0).Seconds())
+		}
+		tPhase := time.Now()
+		if os.Getenv("GCV_TIMING") != "" {
+			fmt.Fprintf(os.Stderr, "asm stand-ins: phase 1 done (%d jobs)\n", len(jobs))
+		}
+		// phase 2 (parallel): one go test per package and build configuration runs the sources of all its jobs
+		groups := map[string][]int{}
+		var gkeys []string
+		for i, p := range prepared {
+			if p == nil {
+				continue
+			}
+			k := p.rp.ctx.Pkg.Pkg.Path() + "|" + p.rp.ctx.Tags
+			if groups[k] == nil {
+				gkeys = append(gkeys, k)
+			}
+			groups[k] = append(groups[k], i)
+		}
+		outsOf := make([]map[int]string, len(jobs))
+		logOf := make([]string, len(jobs))
+		sem := make(chan struct{}, 12)
+		var wg sync.WaitGroup
+		for _, k := range gkeys {
+			wg.Add(1)
+			go func(idx []int) {
+				defer wg.Done()
+				sem <- struct{}{}
+				defer func() { <-sem }()
+				var srcs []string
+				for _, i := range idx {
+					srcs = append(srcs, prepared[i].src)
+				}
+				sc, _ := os.MkdirTemp("", "gcv-asm-")
+				outs, log := prepared[idx[0]].rp.runTestBatch(srcs, sc)
+				os.RemoveAll(sc)
+				for n, i := range idx {
+					outsOf[i] = outs[n]
+					logOf[i] = log
+				}
+			}(groups[k])
+		}
+		wg.Wait()
+		if os.Getenv("GCV_TIMING") != "" {
+			fmt.Fprintf(os.Stderr, "asm stand-ins: phase 2 took %.1fs\n", time.Since(tPhase).Seconds())
+		}
+		tPhase = time.Now()
+		// phase 3 (sequential): evaluate every clause of each contract on the outputs
+		// (jobs of different units have different verifier objects and run side by side; those of one unit in turn)
+		byV := map[*Verifier][]int{}
+		for i, p := range prepared {
+			if p != nil {
+				byV[jobs[i].m.v] = append(byV[jobs[i].m.v], i)
+			}
+		}
+		var wg3 sync.WaitGroup
+		for _, idx := range byV {
+			wg3.Add(1)
+			go func(idx []int) {
+				defer wg3.Done()
+				sem <- struct{}{}
+				defer func() { <-sem }()
+				for _, i := range idx {
+					tj := time.Now()
+					res[i] = out{jobs[i], finishReplay(prepared[i], outsOf[i], logOf[i])}
+					if os.Getenv("GCV_TIMING") != "" {
+						fmt.Fprintf(os.Stderr, "  finish %s@%s %q: %.2fs (%d outputs)\n", jobs[i].r.Func, jobs[i].part.label, jobs[i].setup, time.Since(tj).Seconds(), len(outsOf[i]))
+					}
+				}
+			}(idx)
+		}
+		wg3.Wait()
+		if os.Getenv("GCV_TIMING") != "" {
+			fmt.Fprintf(os.Stderr, "asm stand-ins: phase 3 took %.1fs\n", time.Since(tPhase).Seconds())
+		}
+		byFunc := map[string]*BoundedResult{}
+		var order []string
+		for _, o := range res {
+			if o.rr == nil {
+				continue
+			}
+			asmRuns++
+			if os.Getenv("GCV_DEBUG_REPLAY") != "" {
+				fmt.Fprintf(os.Stderr, "asm stand-in %s@%s setup=%q: tried %d evaluated %d: %s\n", o.j.r.Func, o.j.part.label, o.j.setup, o.rr.Tried, o.rr.Evaluated, strings.SplitN(o.rr.Log, "\n", 8)[0])
+			}
+			asmEvals += o.rr.Evaluated
+			asmDistinct += o.rr.Distinct
+			if o.rr.Sample != nil && len(asmSamples) < 4 {
+				asmSamples = append(asmSamples, o.rr.Sample)
+			}
+			key := o.j.r.Func + " [" + o.j.r.Tags + "]"
+			br := byFunc[key]
+			if br == nil {
+				br = &BoundedResult{Function: key + " (assembly, assumed contract)", Bound: "per alias partition and configuration (ADX on / off): boundary lattice of limb values (0, 1, 2^k-1, limbs of q, q-1, (q-1)/2), then seeded random inputs; 160 inputs, those meeting the precondition are evaluated", Result: "agrees with the assumed contract"}
+				byFunc[key] = br
+				order = append(order, key)
+			}
+			br.Cases += o.rr.Evaluated
+			if o.rr.Confirmed {
+				violations++
+				br.Result = "DISAGREES"
+				probe := &Obligation{Name: o.j.r.Func + "#bounded-assembly-check@" + o.j.part.label, Kind: "bounded", Spec: "the assembly routine satisfies its assumed contract on the tried inputs", Result: &SolverResult{Status: "concrete-counterexample", Solver: "go test"}}
+				rp := writeReplayWith(replayDir, id, probe, *repo, o.rr)
+				fmt.Printf("VIOLATION property=%s replay=%s obligation=%s tags=%s config=%q status=concrete-counterexample clauses=%v\n", id, rp, probe.Name, o.j.r.Tags, o.j.setup, o.rr.Violated)
+			}
+		}
+		for _, k := range order {
+			bounded = append(bounded, *byFunc[k])
+		}
+	}
 
 	// ---- evidence ----
 	sort.Strings(funcs)
@@ -533,11 +714,15 @@ func cmdProp(args []string) {
 	if len(samples) == 0 {
 		samples = append(samples, map[string]interface{}{"note": "no post-condition obligation discharged in this run"})
 	}
+	level := "proof"
+	if plan.AsmStandins {
+		level = "exploration"
+	}
 	ev := map[string]interface{}{
 		"property_id": id,
 		"tier":        *tier,
 		"seed":        seed,
-		"level":       "proof",
+		"level":       level,
 		"coverage": map[string]interface{}{
 			"obligations":               total,
 			"discharged":                discharged,
@@ -563,6 +748,15 @@ func cmdProp(args []string) {
 		"wall_s":      round3(time.Since(t0).Seconds()),
 		"violations":  violations,
 	}
+	if plan.AsmStandins {
+		cov := ev["coverage"].(map[string]interface{})
+		cov["evaluations"] = asmEvals
+		cov["distinct_nontrivial"] = asmDistinct
+		cov["rule"] = "every assembly routine with an assumed contract is called, through an in-package test built from /repo's working tree, on 160 inputs per alias partition and run-time configuration (boundary lattice of limb values, then seeded random values); an input is evaluated when it meets the contract's precondition, and every clause of the contract (the one the portable Go routine is proved to satisfy under C01 / C06) is evaluated on the outputs; distinct = distinct operand tuples, non-trivial = some operand word is non-zero"
+		cov["samples"] = asmSamples
+		cov["assembly_runs"] = asmRuns
+		cov["exhaustive"] = false
+	}
 	if *evDir == "" {
 		*evDir = filepath.Join(*verifRoot, "evidence")
 	}
@@ -573,9 +767,17 @@ func cmdProp(args []string) {
 	os.MkdirAll(filepath.Dir(evPath), 0o755)
 	eb, _ := json.MarshalIndent(ev, "", " ")
 	os.WriteFile(evPath, eb, 0o644)
-	fmt.Printf("property %s tier=%s: %d/%d obligations discharged (%d by simplifier), %d functions, %d not covered, %d known findings, %d violations, %.1fs\n",
-		id, *tier, discharged, total, trivial, len(funcs), len(notCovered), len(knownHit), violations, time.Since(t0).Seconds())
-	if discharged == 0 {
+	if !plan.AsmStandins {
+		fmt.Printf("property %s tier=%s: %d/%d obligations discharged (%d by simplifier), %d functions, %d not covered, %d known findings, %d violations, %.1fs\n",
+			id, *tier, discharged, total, trivial, len(funcs), len(notCovered), len(knownHit), violations, time.Since(t0).Seconds())
+	}
+	if plan.AsmStandins {
+		fmt.Printf("property %s tier=%s (bounded, not a proof): %d assembly routines run against their assumed contracts, %d runs, %d inputs evaluated (%d distinct non-trivial), %d not covered, %d violations, %.1fs\n", id, *tier, len(assumedFns), asmRuns, asmEvals, asmDistinct, len(notCovered), violations, time.Since(t0).Seconds())
+		if asmEvals == 0 {
+			fmt.Printf("VIOLATION property=%s replay=none vacuity: no assembly routine was evaluated against its contract\n", id)
+			os.Exit(1)
+		}
+	} else if discharged == 0 {
 		fmt.Printf("VIOLATION property=%s replay=none vacuity: no obligation was generated or discharged\n", id)
 		os.Exit(1)
 	}
